@@ -102,7 +102,7 @@ def mode_decision(ctx, repo, rule):
             mk = lambda on: Obj(None, {"is_on": on}, name="device")  # noqa: E731
             attrs = init_defaults(repo, "GeckoAsyncFacade")
             attrs.update({"_pumps": [mk(x) for x in pumps], "_blowers": [mk(x) for x in blowers], "_lights": [mk(True)]})
-            me = Obj(f.cls, attrs)
+            me = Obj(repo.cls("GeckoAsyncFacade"), attrs)
             try:
                 interp.call(f, me, [])
             except PyRaise as e:
